@@ -1,5 +1,6 @@
 use std::collections::HashMap;
 use std::path::PathBuf;
+use std::sync::atomic::{AtomicBool, Ordering};
 use std::sync::Arc;
 
 use rip_kernel::{Event, Runtime};
@@ -23,6 +24,7 @@ pub struct SessionHandle {
     pub session_id: String,
     sender: broadcast::Sender<Event>,
     events: Arc<Mutex<Vec<Event>>>,
+    started: Arc<AtomicBool>,
 }
 
 impl SessionHandle {
@@ -118,16 +120,22 @@ impl SessionEngine {
             session_id,
             sender,
             events: Arc::new(Mutex::new(Vec::new())),
+            started: Arc::new(AtomicBool::new(false)),
         }
     }
 
+    /// Starts the session's run. A session carries exactly one run (one start frame at seq 0, one
+    /// end frame): returns `false` without spawning anything if the session already got its input.
     pub fn spawn_session(
         &self,
         handle: SessionHandle,
         input: String,
         continuity: Option<ContinuityRunLink>,
         openresponses_override: Option<OpenResponsesConfig>,
-    ) {
+    ) -> bool {
+        if handle.started.swap(true, Ordering::SeqCst) {
+            return false;
+        }
         let openresponses = openresponses_override.or_else(|| self.openresponses.clone());
         tokio::spawn(run_session(SessionContext {
             runtime: self.runtime.clone(),
@@ -144,6 +152,7 @@ impl SessionEngine {
             server_session_id: handle.session_id.clone(),
             input,
         }));
+        true
     }
 
     pub fn cancel_session(sessions: &mut HashMap<String, SessionHandle>, session_id: &str) -> bool {
